@@ -7,7 +7,7 @@ implementation's keyspace with an independent re-implementation of the documente
 import copy
 import random
 
-from lib import common, gen
+from lib import common, gen, hist
 from lib.kvimpl import KVImpl, model_event
 
 THEOREMS_TIED = ["C10_coherent_applyTask", "C10_coherent_reachable", "C10_found_iff_stored"]
@@ -218,6 +218,322 @@ def nested_history(rng):
     return [("add", e), ("del", e["id"])]
 
 
+# ---- queued bursts with LARGE events ----------------------------------------------------------------
+#
+# The histories above give the writer one task at a time.  In the relay the writer is a thread behind a queue: while it is busy
+# (or waits for LMDB's single write lock, which other worker processes, the collector and bulk loads share) submissions pile up,
+# and whatever a task leaves to be done *later* — by the writer itself or by anybody else — happens after the tasks that were
+# already waiting.  C10 is about the keyspace the readers see once the writer is idle again, whatever was queued in between and
+# whatever failed on the way.  This family therefore queues several operations back to back through the real storage API
+# (add_event / delete_event / the collector) WITHOUT running the writer in between, lets the real writer loop run until its
+# queue is empty, and evaluates the coherence predicate then.  The events at the centre are LARGE: NIP-01 puts no bound on the
+# number of tags, contact lists (kind 3) and follow sets with hundreds or thousands of p tags are ordinary traffic, and
+# everything that is per tag (index entries written, entries cleared, the size of the transaction) scales with that number —
+# so any batching, chunking or deferral in the write path shows only there.  The sizes are a ladder over three orders of
+# magnitude (30 … 3 000 tags in the quick tier, 10 000 in the thorough one), chosen from what clients publish and not from any
+# constant in the code.
+
+TAG_LADDER_QUICK = [30, 100, 300, 1000, 3000]
+TAG_LADDER_THOROUGH = [30, 100, 300, 1000, 3000, 10000]
+REMOVERS = ["replace", "replace-large", "kind5", "del", "gc", "chain", "none", "foreign-kind5", "older-version", "duplicate"]
+REPLACEABLE = [0, 3, 3, 10002, 30000]
+
+
+def large_tags(rng, n, profile):
+    """n tags: a contact list (p tags with distinct 64-hex values, some with relay hint and petname), or a mixture of names —
+    indexable single letters, multi-letter names that are not indexed, repeated tags, values shared between names"""
+    tags = []
+    base = rng.randrange(1 << 200)
+    for i in range(n):
+        if profile == "contacts":
+            t = ["p", "%064x" % (base + i)]
+            r = rng.random()
+            if r < 0.1:
+                t += ["wss://relay%d.example" % (i % 7)]
+            elif r < 0.15:
+                t += ["", "pet%d" % i]
+        else:
+            name = rng.choice(["p", "p", "e", "t", "a", "r", "g", "é", "relay", "client", "nonce", "emoji"])
+            r = rng.random()
+            if r < 0.45:
+                t = [name, "%064x" % (base + i)]
+            elif r < 0.9:
+                t = [name, "%s%d" % (rng.choice(["v", "a", "ab", "é", ""]), i // rng.choice([1, 1, 2]))]   # some repeated
+            elif r < 0.95:
+                t = [name]
+            else:
+                t = [name, "x%d" % i, "extra"]
+        tags.append(t)
+    return tags
+
+
+def _ev(rng, author, kind, ts, tags, content=""):
+    return {"id": gen.mkid(rng), "pubkey": author, "created_at": ts, "kind": kind, "tags": tags, "content": content,
+            "sig": "00" * 64}
+
+
+def gen_burst(rng, n_tags, remover):
+    """one scenario: {"groups": [{"ops": [...], "drain": "idle" | "once"}, ...]}.  The operations of a group are queued back to
+    back; then the writer runs — until it is idle, or ("once") one pass over what was queued, after which the next group
+    arrives while the writer may still have work of its own."""
+    me, other = rng.sample(gen.AUTHORS[:4], 2)
+    profile = rng.choice(["contacts", "contacts", "mixed"])
+    t0 = gen.T0 + rng.choice([0, 1, 255, 65535])
+    kind = rng.choice(REPLACEABLE) if remover in ("replace", "replace-large", "chain", "older-version") \
+        else rng.choice(REPLACEABLE + [1, 1, 30023])
+    tags = large_tags(rng, n_tags, profile)
+    if kind >= 30000:
+        tags.insert(rng.randrange(len(tags) + 1), ["d", rng.choice(["", "a", "list"])])
+    if remover == "gc":
+        tags.insert(rng.randrange(len(tags) + 1), ["expiration", str(gen.T0 - rng.choice([1, 100]))])
+    elif rng.random() < 0.15:
+        tags.append(["expiration", str(gen.T0 + 10 ** 6)])
+    big = _ev(rng, me, kind, t0, tags, "v1")
+    dtag = [t for t in tags if t[0] == "d"][:1]
+
+    def bystander():
+        b = gen.gen_event(rng, authors=[me, other], kinds=[1, 7, 1, 30000], times=[t0 - 1, t0, t0 + 1, t0 + 7])
+        if rng.random() < 0.5:
+            b["tags"] = b["tags"] + [list(rng.choice(tags))]       # files under a value of the large event too
+        return b
+
+    setup = []
+    if rng.random() < 0.5:
+        setup = [["add", bystander()] for _ in range(rng.choice([1, 2, 3]))]
+        if kind != 1 and rng.random() < 0.5:
+            setup.append(["add", _ev(rng, me, kind, t0 - 5, dtag + tags[:rng.choice([0, 2, 40])], "v0")])
+    main, after = [["add", big]], []
+    if remover == "replace":
+        after = [["add", _ev(rng, me, kind, t0 + rng.choice([0, 1, 50]), dtag + tags[:rng.choice([0, 3])], "v2")]]
+    elif remover == "replace-large":
+        keep = rng.sample(tags, len(tags) // 2)
+        after = [["add", _ev(rng, me, kind, t0 + rng.choice([1, 50]), dtag + [t for t in keep if t[0] != "d"]
+                            + large_tags(rng, max(1, n_tags // 3), profile), "v2")]]
+    elif remover == "chain":
+        v2 = _ev(rng, me, kind, t0 + 1, dtag + large_tags(rng, max(1, n_tags // 2), profile) + tags[:5], "v2")
+        v3 = _ev(rng, me, kind, t0 + 2, dtag + tags[:2], "v3")
+        after = [["add", v2], ["add", v3]]
+        if rng.random() < 0.5:
+            after.insert(rng.choice([1, 2]), ["add", _ev(rng, me, 5, t0 + 3, [["e", v2["id"]], ["e", big["id"]]])])
+    elif remover == "kind5":
+        refs = [["e", big["id"]]] + ([["e", gen.mkid(rng)]] if rng.random() < 0.3 else [])
+        after = [["add", _ev(rng, me, 5, t0 + rng.choice([1, 2, 100]), refs)]]
+    elif remover == "foreign-kind5":
+        after = [["add", _ev(rng, other, 5, t0 + 1, [["e", big["id"]]])]]
+    elif remover == "del":
+        after = [["del", big["id"]]]
+    elif remover == "gc":
+        after = [["gc", gen.T0]]
+    elif remover == "older-version":
+        after = [["add", _ev(rng, me, kind, t0 - 1, dtag + tags[:rng.choice([0, 3, 50])], "older")]]
+    elif remover == "duplicate":
+        after = [["add", dict(big)]] + ([["del", gen.mkid(rng)]] if rng.random() < 0.5 else [])
+    for _ in range(rng.choice([0, 0, 1, 2])):
+        after.insert(rng.randrange(len(after) + 1), ["add", bystander()])
+    groups = []
+    if setup:
+        groups.append({"ops": setup, "drain": "idle"})
+    shape = rng.random()
+    if remover == "gc" or shape < 0.25:
+        # the large event gets one pass of the writer (it is on disk when the collector / the next client comes), but the
+        # writer is not known to be idle when the rest is queued
+        groups.append({"ops": main, "drain": "once"})
+        groups.append({"ops": after, "drain": "idle"})
+    elif shape < 0.35 and after:
+        # the remover arrives first (a deletion before its target, a newer version before the older one)
+        groups.append({"ops": after + main, "drain": "idle"})
+    else:
+        groups.append({"ops": main + after, "drain": "idle"})
+    if rng.random() < 0.3:
+        groups.append({"ops": [["add", bystander()]] + ([["gc", gen.T0 + 5]] if rng.random() < 0.4 else []), "drain": "idle"})
+    groups = [g for g in groups if g["ops"]]
+    groups[-1]["drain"] = "idle"
+    return {"case": "queued-burst", "remover": remover, "n_tags": n_tags, "groups": groups, "fault": None}
+
+
+class BurstStore(hist.KVStore):
+    """hist.KVStore whose reset() builds a new LMDBStorage / environment / writer on the SAME event loop: every scenario starts
+    from a fresh storage object, and a hundred of them do not leave a hundred event loops (each with its self-pipe) behind"""
+
+    def reset(self):
+        import asyncio
+
+        loop, orig = self.loop, asyncio.new_event_loop
+        self.close()
+        asyncio.new_event_loop = lambda: loop
+        try:
+            hist.KVStore.__init__(self, **self._args)
+        finally:
+            asyncio.new_event_loop = orig
+
+
+class _View:
+    """dump() / stored() of a hist.KVStore, for the coherence predicate"""
+
+    def __init__(self, store):
+        self.store = store
+
+    def dump(self):
+        return self.store.dump()
+
+    def stored(self):
+        kv, out = self.store.kv, {}
+        with self.store.env.begin(buffers=True) as txn:
+            for k, v in txn.cursor().iternext():
+                k = bytes(k)
+                if k[:1] == b"\x00":
+                    out[k[1:].hex()] = kv.decode_event(kv.unpackb(bytes(v), use_list=False))
+        return out
+
+
+FAULT_EXC = {"mapfull": "MapFullError", "generic": "Error", "runtime": None}
+
+
+def _drain(store, mode, stats):
+    """run the real writer loop: one pass over what is queued ("once"), or passes until the queue is empty ("idle": what
+    wait_for_writer waits for).  Returns whether the writer is idle."""
+    for _ in range(64):
+        try:
+            store.quiesce()
+        except hist.WriterDied:
+            stats["died"] += 1          # (a writer loop that dies of a fault is C07's subject; the keyspace is still judged)
+        if mode == "once" or store.writer.queue.empty():
+            break
+    return store.writer.queue.empty()
+
+
+def run_burst(report, drv, store, scen, tag, model_budget=0):
+    """One scenario on a fresh storage object; the coherence predicate is evaluated whenever the writer is idle after a group.
+    Returns {"marks": [per group: number of engine mutations so far when its drain starts] + [total], "tasks": queued tasks,
+    "failed": the property failed} so that the caller can place faults."""
+    store.reset()
+    lmdb = store.kv.lmdb
+    view = _View(store)
+    fault = scen.get("fault")
+    stats = {"died": 0}
+    lines, in_model = [{"op": "kv.reset"}], fault is None
+    n_model_tags = 0
+    marks, tasks, failed, idle = [], 0, False, True
+    lmdb.FAULT, lmdb.BEGIN_FAULT = None, None
+    lmdb.MUTATION_LOG = []
+    try:
+        for gi, group in enumerate(scen["groups"]):
+            for op in group["ops"]:
+                if op[0] == "add":
+                    res = store.submit(op[1])
+                    if res["ok"] and not (20000 <= op[1]["kind"] < 30000):
+                        tasks += 1
+                        me = model_event(op[1])
+                        if me is None:
+                            in_model = False
+                        else:
+                            n_model_tags += len(me["tags"])
+                            lines.append({"op": "kv.task", "task": {"t": "add", "ev": me}})
+                elif op[0] == "del":
+                    store.run(store.storage.delete_event(op[1]))
+                    tasks += 1
+                    lines.append({"op": "kv.task", "task": {"t": "del", "id": op[1]}})
+                elif op[0] == "gc":
+                    # the real collector looks at what is committed now and queues its deletions behind what is waiting
+                    queued, orig_del = [], store.storage.delete_event
+
+                    async def recording(event_id, _orig=orig_del, _q=queued):
+                        _q.append(event_id)
+                        return await _orig(event_id)
+
+                    kvmod, orig_time = store.kv, store.kv.time
+                    kvmod.time = lambda now=op[1]: now
+                    store.storage.delete_event = recording
+                    try:
+                        async def go():
+                            with store.env.begin() as conn:
+                                return await store.new_collector().collect(conn)
+                        store.run(go())
+                    finally:
+                        kvmod.time = orig_time
+                        del store.storage.delete_event
+                    tasks += len(queued)
+                    report.count("queued_burst_gc_deletions", len(queued))
+                    lines += [{"op": "kv.task", "task": {"t": "del", "id": i}} for i in queued]
+            marks.append(len(lmdb.MUTATION_LOG))
+            if fault and fault["group"] == gi:
+                exc = getattr(lmdb, FAULT_EXC[fault["exc"]]) if FAULT_EXC[fault["exc"]] else RuntimeError
+                if fault["kind"] == "mutation":
+                    lmdb.FAULT = {"countdown": fault["at"], "exc": exc}
+                else:
+                    lmdb.BEGIN_FAULT = {"countdown": fault["at"], "exc": exc}
+            idle = _drain(store, group["drain"], stats)
+            if idle and group["drain"] == "idle":
+                bad = coherence_violations(view)
+                if bad:
+                    n_dang = sum(1 for b in bad if b[0] == "dangling")
+                    report.property_failure(
+                        "keyspace incoherent when the writer is idle again after a burst of %d queued operations around an event "
+                        "with %d tags (%s%s): %d dangling index entries, %d entries missing; first: %r"
+                        % (sum(len(g["ops"]) for g in scen["groups"][:gi + 1]), scen["n_tags"], scen["remover"],
+                           ", fault %r" % (fault,) if fault else "", n_dang, len(bad) - n_dang, bad[:3]), scen, None)
+                    failed = True
+                    break
+        marks.append(len(lmdb.MUTATION_LOG))
+    finally:
+        lmdb.FAULT, lmdb.BEGIN_FAULT, lmdb.MUTATION_LOG = None, None, None
+    if not idle:
+        report.count("queued_bursts_writer_not_idle_after_64_passes")
+    if in_model and not failed and idle and n_model_tags <= model_budget:
+        # the same tasks, one at a time, in the model (its store is a sorted list: a task with n entries costs n^2 — hence the budget)
+        final = store.dump()
+        got = drv.batch(lines + [{"op": "kv.dump"}])[-1]
+        if got != final:
+            report.correspondence_break("kv.WriterThread (queued burst)", scen, summarize(final), summarize(got))
+        report.count("queued_bursts_tied_to_model")
+    report.case(("burst", tag, scen["remover"], scen["n_tags"], repr(fault), repr([[o[0] for o in g["ops"]] for g in scen["groups"]])),
+                nontrivial=True,
+                sample={"case": "queued-burst", "remover": scen["remover"], "tags_of_large_event": scen["n_tags"], "fault": fault,
+                        "groups": [[(o[0], (o[1]["kind"], len(o[1]["tags"])) if o[0] == "add" else o[1]) for o in g["ops"]] + [g["drain"]]
+                                   for g in scen["groups"]]})
+    report.count("queued_bursts")
+    report.count("queued_burst_operations", sum(len(g["ops"]) for g in scen["groups"]))
+    report.count("queued_burst_remover_" + scen["remover"])
+    report.count("queued_burst_tags_%d" % scen["n_tags"])
+    if fault:
+        report.count("queued_burst_faults_" + fault["kind"])
+    if stats["died"]:
+        report.count("queued_burst_writer_loop_died", stats["died"])
+    return {"marks": marks, "tasks": tasks, "failed": failed}
+
+
+def burst_family(report, drv, store, rng, tier):
+    ladder = TAG_LADDER_QUICK if tier == "quick" else TAG_LADDER_THOROUGH
+    rounds = 1 if tier == "quick" else 6
+    budget = 700 if tier == "quick" else 2500
+    failures = 0
+    for rnd in range(rounds):
+        for remover in REMOVERS:
+            for n_tags in ladder:
+                if failures >= 3:       # (the replay of a large event is large: three failing inputs are enough)
+                    return
+                scen = gen_burst(rng, n_tags, remover)
+                m = run_burst(report, drv, store, scen, (rnd, "plain"), model_budget=budget)
+                if m["failed"]:
+                    failures += 1
+                    continue
+                # the same burst with the engine failing once: at a mutation (put / delete) somewhere in the work that follows
+                # the queueing of a group, or at the begin of one of the write transactions
+                gi = rng.randrange(len(scen["groups"]))
+                span = m["marks"][-1] - m["marks"][gi]
+                picks = []
+                if span > 0:
+                    picks.append({"group": gi, "kind": "mutation", "at": rng.choice([1, span, rng.randint(1, span), rng.randint(1, span)]),
+                                  "exc": rng.choice(sorted(FAULT_EXC))})
+                picks.append({"group": gi, "kind": "begin", "at": rng.randint(1, m["tasks"] + 2), "exc": rng.choice(sorted(FAULT_EXC))})
+                if tier == "quick":
+                    picks = [rng.choice(picks)]
+                for f in picks:
+                    fs = dict(scen, fault=f)
+                    if run_burst(report, drv, store, fs, (rnd, "fault"))["failed"]:
+                        failures += 1
+
+
 def run(report, tier, seed):
     rng = random.Random(seed)
     drv = common.Driver()
@@ -229,10 +545,19 @@ def run(report, tier, seed):
         "integers) over 4 authors, boundary kinds, timestamps and ids, tag values that are JSON numbers (incl. doubles that are "
         "not exact as 32-bit floats), booleans or null; after every task the full LMDB key list is "
         "compared with the Lean model and the coherence predicate is evaluated on the real keyspace; non-trivial = "
-        "more than 3 tasks or an aborted transaction")
+        "more than 3 tasks or an aborted transaction.  Queued bursts (real LMDBStorage, real writer loop): an event with "
+        "30 / 100 / 300 / 1000 / 3000 tags (thorough: 10000; contact lists and mixed tag names) is queued together with what removes "
+        "it or not — a newer version (small / large), a chain of versions, a kind-5 deletion (own / foreign), delete_event, the "
+        "collector, an older version, a duplicate — and bystanders, back to back without the writer running in between (also: the "
+        "writer gets one pass between two groups, the remover queued first), each also with one engine fault at a sampled mutation "
+        "or at the begin of a write transaction; the writer loop runs until its queue is empty and the coherence predicate is "
+        "evaluated then; fault-free bursts of up to 700 tags (thorough 2500) are also compared with the model applying the same tasks "
+        "one at a time")
     report.assumptions += [
         "LMDB engine: %s (E2 = real liblmdb 0.9.31 through ctypes; E1 = pure-Python stand-in)" % impl.lmdb.ENGINE,
         "writer thread body run synchronously in the harness thread (same code, no concurrency)",
+        "queued bursts: 'the writer does not run between two submissions' is produced by not running the (unstarted) writer's loop "
+        "until the group is queued; the order of the queue is what a busy writer / a held write lock gives",
         "tag items that are not strings are outside the Lean model; such histories are checked by the oracle only",
     ]
     try:
@@ -245,6 +570,11 @@ def run(report, tier, seed):
         for i in range(3 if tier == "quick" else 30):
             for _ in range(12 if tier == "quick" else 200):
                 run_history(report, drv, impl, nested_history(rng), "nested")
+        store = BurstStore()
+        try:
+            burst_family(report, drv, store, rng, tier)
+        finally:
+            store.close()
     finally:
         impl.close()
         drv.close()
@@ -259,6 +589,13 @@ def replay(report, path):
     try:
         for it in (data.get("violations") or []) + (data.get("correspondence_breaks") or []):
             r = it.get("replay") or it.get("input")
+            if r.get("case") == "queued-burst":
+                store = BurstStore()
+                try:
+                    run_burst(report, drv, store, r, "replay", model_budget=700)
+                finally:
+                    store.close()
+                continue
             run_history(report, drv, impl, [tuple(o) for o in r["ops"]], "replay")
     finally:
         impl.close()
